@@ -15,6 +15,7 @@ import sys
 from asyncio import CancelledError
 
 import core
+import tiegen
 
 DRIVERS = [("lock", "Lock")]
 
@@ -296,35 +297,9 @@ def exhaustive_cases(ntasks: int, depth: int, fast: bool):
     return results
 
 
-LOCKGEN = core.COQ / "prims" / "LockGen.v"
 TIE_FILES = ("prims/LockGen.v", "prims/LockGenEq.v")
-
-
-def run_translator():
-    """Regenerate LockGen.v from core.REPO (fail closed: a refusal leaves a file that does not compile)."""
-    env = dict(os.environ, VERIF_REPO=str(core.REPO))
-    with core.locked("lockgen"):
-        p = subprocess.run([sys.executable, str(core.VERIF / "tools" / "translate_lock.py")], env=env,
-                           stdout=subprocess.PIPE, stderr=subprocess.STDOUT, text=True, timeout=120)
-        text = LOCKGEN.read_text() if LOCKGEN.exists() else ""
-    return p.returncode, p.stdout.strip(), text
-
-
-def failing_obligation(where: str):
-    """'prims/LockGenEq.v:123' -> (name of the enclosing Theorem/Lemma, segment it speaks about)."""
-    m = re.match(r"(.+\.v):(\d+)$", where or "")
-    if not m or not (core.COQ / m.group(1)).exists():
-        return None, None
-    lines = (core.COQ / m.group(1)).read_text().splitlines()[:int(m.group(2))]
-    for ln in reversed(lines):
-        d = re.match(r"\s*(?:Theorem|Lemma|Example|Corollary|Definition)\s+([A-Za-z0-9_']+)", ln)
-        if d:
-            name = d.group(1)
-            seg = re.sub(r"^(C09_)?tie_|_spec$", "", name) if "tie_" in name else None
-            if name in ("poploop_handoff", "exec_release", "exec_call_release"):
-                seg = "release_entry / release_loop_body"
-            return name, seg
-    return None, None
+TIE_HELPERS = {"poploop_handoff": "release_entry / release_loop_body", "exec_release": "release_entry",
+               "exec_call_release": "release_entry"}
 
 
 def check(tier: str) -> int:
@@ -333,24 +308,12 @@ def check(tier: str) -> int:
         "model prims/Lock.v hand-written from class Lock in _asyncio.py; cancellation modelled as native Task.cancel() on blocked tasks (superset of what AnyIO scope delivery does to a blocked task)",
         "tie T: tools/translate_lock.py (python ast -> coq/prims/LockGen.v, fail-closed grammar in its docstring) regenerates the segments of Lock.acquire/acquire_nowait/release/locked on every run and prims/LockGenEq.v proves their interpretation (prims/LockImp.v: exec) equal to Lock.step for all states and tasks. Trusted in it: the translator's mapping of Python constructs to LockImp statements, the cutting of acquire() at its awaits into entry/continuation segments, CPython's await/exception semantics at the cut points (which continuation runs, locals persist: LockImp.gstep), and the reading of checkpoint_if_cancelled() at the start of an uncontended acquire as a no-op when the caller's scope is not cancelled (C08 covers the cancelled case). The translator is not the only tie: the same model is co-simulated against the running code below",
     ]
-    # tie T: regenerate the segments from the source under test, then rebuild the cone (LockGen, LockGenEq, props/C09).
-    # The retry only matters when another check regenerated LockGen.v from a different tree in between.
-    for _attempt in range(3):
-        t_rc, t_out, gen_text = run_translator()
-        proofs_ok = core.proof_stage(rep, "props/C09.v")
-        if (LOCKGEN.read_text() if LOCKGEN.exists() else "") == gen_text:
-            break
-    segs = dict(re.findall(r"^  (\w+) := (.*)$", t_out, re.M))
-    m_at = re.search(r"atoms=(\{.*?\})", t_out)
-    tie_T = {
-        "translator": "tools/translate_lock.py (python ast -> coq/prims/LockGen.v, fail closed)",
-        "translator_ok": t_rc == 0,
-        "translator_output": t_out.splitlines()[0][-600:] if t_out else "",
-        "segments": segs,
-        "atoms_per_method": m_at.group(1) if m_at else None,
-        "equality_theorems": "LockGenEq.v: tie_acquire_entry, tie_acquire_nowait, tie_release, tie_acquire_yield_resumed, tie_acquire_yield_cancelled, tie_acquire_wait_resumed, tie_acquire_wait_cancelled, tie_locked, gstep_eq_step (+ *_spec forms, props C09_tie_*)",
-        "equality_proved": bool(proofs_ok),
-    }
+    # tie T: regenerate the segments from the source under test, then rebuild the cone (LockGen, LockGenEq, props/C09);
+    # both under the `tiegen` lock so that a concurrent check against another tree cannot swap the generated file
+    t_rc, t_out, proofs_ok = tiegen.translate_and_prove(rep, "props/C09.v", "translate_lock.py")
+    tie_T, tie_T_broken = tiegen.describe(rep, t_rc, t_out, proofs_ok, TIE_FILES, TIE_HELPERS)
+    tie_T["translator"] = "tools/translate_lock.py (python ast -> coq/prims/LockGen.v, fail closed)"
+    tie_T["equality_theorems"] = "LockGenEq.v: tie_acquire_entry, tie_acquire_nowait, tie_release, tie_acquire_yield_resumed, tie_acquire_yield_cancelled, tie_acquire_wait_resumed, tie_acquire_wait_cancelled, tie_locked, gstep_eq_step (+ *_spec forms, props C09_tie_*)"
     rep.coverage["tie_T"] = tie_T
     exe = core.build_driver("lock", "Lock")
 
@@ -402,16 +365,8 @@ def check(tier: str) -> int:
                             "ops_readable": [(OPN[r.ops[i]], r.ops[i + 1]) for i in range(0, len(r.ops), 2)]})
     tie_broken = []
     if not proofs_ok:
-        where = str(rep.coverage.get("proof_failure", {}).get("where"))
-        tie_broken.append("proof obligation: " + where)
-        if t_rc != 0:
-            tie_T["broken"] = "translator refused"
-            tie_broken.append("tie T: class Lock is outside the translator's grammar: " + tie_T["translator_output"])
-        elif where.split(":")[0] in TIE_FILES:
-            thm, seg = failing_obligation(where)
-            tie_T.update({"broken": "equality proof", "failing_theorem": thm, "segment": seg, "where": where})
-            tie_broken.append(f"tie T: the regenerated code no longer equals the model: {thm} ({where}) fails"
-                              + (f", segment {seg}" if seg else ""))
+        tie_broken.append("proof obligation: " + str(rep.coverage.get("proof_failure", {}).get("where")))
+        tie_broken += tie_T_broken
     if disagreements:
         tie_broken.append("correspondence Lock.run_case vs anyio.Lock")
     if rejected:
@@ -461,8 +416,12 @@ def replay(path: str) -> int:
     d = json.load(open(path))
     if d.get("kind") == "tie" and not d.get("case"):
         # a broken tie without a failing input: re-run the translator and the proof cone, report what fails now
-        t_rc, t_out, _ = run_translator()
-        ok, log = core.coq_make(["props/C09.vo"])
+        with core.locked("tiegen"):
+            p = subprocess.run([sys.executable, str(core.VERIF / "tools" / "translate_lock.py")],
+                               env=dict(os.environ, VERIF_REPO=str(core.REPO)), stdout=subprocess.PIPE,
+                               stderr=subprocess.STDOUT, text=True, timeout=120)
+            ok, log = core.coq_make(["props/C09.vo"])
+        t_rc, t_out = p.returncode, p.stdout.strip()
         print("\n".join(t_out.splitlines()[:1]))
         print("BROKEN (recorded):", "; ".join(d.get("broken", [])))
         print("proof cone now:", "ok" if ok else "FAILS " + " ".join(re.findall(r'File "\./([^"]+)", line (\d+)', log)[:1] and
